@@ -51,17 +51,25 @@ def canon_real(t4, vid, aux):
             tuple(sorted(canon_real(t4, a, aux) for a in args)))
 
 
+PTS = [[x, y, z] for x in (-7, -3, -1, 1, 3) for y in (-3, 1) for z in (1, 5)]     # both sides of every plane used
+
+
 def replay_one(job):
     tid, rec, nsurf, cards = job
     deck = adeck.normalise({'surfs': [{'n': i + 1, 'k': c.split()[0], 'p': [int(x) for x in c.split()[1:]]}
                                       for i, c in enumerate(cards)],
                             'cells': [{'n': 1, 'geom': to_expr(rec['tree'])}, {'n': 2, 'geom': ['C', 1], 'imp': 0}]})
+    deck['pts'] = PTS
     text = adeck.concretise(deck)
     res = conv.convert(text)
-    out = {'tid': tid, 'result': res['result'], 'agree': False, 'text': text, 'err': res['error']}
+    out = {'tid': tid, 'result': res['result'], 'agree': False, 'text': text, 'err': res['error'], 'deck': deck,
+           'file': None, 'note': conv.note_cells(res['stdout'])}
     if res['result'] != 'ok':
         return out
     t4 = t4file.parse(res['out'])
+    out['file'] = t4file.project(t4, PTS, with_witness=False)
+    out['file']['wit'] = []
+    out['file']['cinfo'] = []
     # auxiliary planes of the real file -> the model's U0 / U1 (after de-duplication they may be deck surfaces)
     aux = {}
     for s in t4['surfs']:
@@ -88,13 +96,14 @@ def replay_one(job):
     return out
 
 
-def run(chk, thorough, seed):
+def run(chk, thorough, seed, configs=None, simulate=True):
     """Returns dict of counts; records design violations in chk."""
     recs_all = []
     stats = {'design_states': 0, 'design_trees': 0, 'replayed': 0, 'structural_agreement': 0, 'disagreements': []}
-    for nsurf, dups, cards, pairs in CONFIGS:
+    for nsurf, dups, cards, pairs in (configs or CONFIGS):
         runs = [(4 if thorough else 3, None)]
-        runs.append((6, 3000 if thorough else 600))
+        if simulate:
+            runs.append((6, 3000 if thorough else 600))
         for maxleaves, sim in runs:
             cfg = ('INIT Init\nNEXT Next\nCONSTANTS MaxLeaves = %d\n NSurf = %d\n Dups <- %s\n'
                    'INVARIANT MeaningPreserved\nINVARIANT Wellformed\nINVARIANT OptimiseSound\nCHECK_DEADLOCK FALSE\n'
@@ -117,6 +126,21 @@ def run(chk, thorough, seed):
     stats['design_trees'] = len(recs_all)
     jobs = [(i + 1, r, n, c) for i, (r, n, c) in enumerate(recs_all)]
     results = conv.run_batch(replay_one, jobs, chunksize=32)
+    # the replayed decks are also validated against the reference meaning (owner clause), so that a change of
+    # the CODE that the model does not share (structural disagreement) is judged by what it does to the geometry
+    good = [r for r in results if 'machinery_error' not in r]
+    try:
+        verdicts = deckrun.validate(chk, good, {r['tid']: r['deck'] for r in good}, 'owner')
+    except tlc.TLCFailure as exc:
+        chk.machinery(str(exc))
+        verdicts = {}
+    byid = {r['tid']: r for r in good}
+    for tid, v in sorted(verdicts.items()):
+        for kind, k in v['bad']:
+            if kind in ('spurious', 'unowned', 'multi', 'wrongid'):
+                chk.violation({'clause': kind, 'where': 'design replay', 'errtype': None, 'features': 'duplicates'},
+                              {'text': byid[tid]['text'], 'deck': byid[tid]['deck'], 'clauses': 'owner',
+                               'point2': PTS[k - 1] if k else None})
     for r in results:
         if 'machinery_error' in r:
             chk.machinery(r['machinery_error'])
